@@ -8,14 +8,14 @@ use crate::node::Branch;
 pub(crate) fn lay_leaf_at(base: *mut u8, keys: &[[u8; 2]; 3], n: usize) {
     unsafe {
         *(base as *mut u64) = 3; // id
-        *base.add(8) = 2; // leaf
+        *(base.add(8) as *mut u64) = 2; // leaf (whole-word store, see harness/cursor.rs put_leaf_page_at)
         *(base.add(16) as *mut u64) = n as u64;
         *(base.add(24) as *mut u64) = 0;
         let mut i = 0usize;
         while i < 3 {
             if i < n {
                 let e = base.add(32 + 32 * i) as *mut u64;
-                *(e as *mut u8) = 0;
+                *e = 0;
                 *e.add(1) = (32 * (n - i) + 3 * i) as u64; // pos relative to the element
                 *e.add(2) = 2;
                 *e.add(3) = 1;
@@ -32,7 +32,7 @@ pub(crate) fn lay_leaf_at(base: *mut u8, keys: &[[u8; 2]; 3], n: usize) {
 pub(crate) fn lay_branch_at(base: *mut u8, keys: &[[u8; 2]; 3], n: usize) {
     unsafe {
         *(base as *mut u64) = 3;
-        *base.add(8) = 1; // branch
+        *(base.add(8) as *mut u64) = 1; // branch
         *(base.add(16) as *mut u64) = n as u64;
         *(base.add(24) as *mut u64) = 0;
         let mut i = 0usize;
